@@ -27,7 +27,7 @@ Inductive event :=
 | EvCleanup (owner : nat) (c : cid) (r : nat) (* cleanup installed by start request [owner] was called; r: 0 exc, 1 start, 2 stop *)
 | EvInt (r : nat)                         (* _cleanup entered with this reason (logged): 0 exc, 1 start, 2 stop *)
 | EvTrans (active : bool) (f : option sid) (* transition hook called with the new state; active: a state was set before *)
-| EvPickup (tid : nat).                   (* deferred task taken (not observable on the implementation) *)
+| EvPickup (tid : nat) (cl : bool).       (* deferred task taken; cl: it installs a cleanup function (not observable on the implementation) *)
 
 Definition reason_code (r : reason) : nat :=
   match r with RExc => 0 | RTask (TStart _ _ _ _) => 1 | RTask (TStop _) => 2 end.
@@ -119,34 +119,43 @@ Definition do_cleanup (W : world) (s : sm) (r : reason) : sm * option sid :=
 
 Inductive iret := IReturn | IBreak | IExhausted.
 
-(* the inner "for _ in range(self.maxloops)" loop *)
+(* one turn of the inner loop: either the loop is left (DRet) or it goes on in a new state (DGo) *)
+Inductive decision := DRet (s : sm) (r : iret) | DGo (s : sm).
+
+Definition after_cleanup (W : world) (p : sm * option sid) : decision :=
+  match snd p with
+  | None => DRet (fst p) IBreak                       (* if ret is None: break *)
+  | Some f => DGo (new_state W (fst p) (Some f))      (* self._new_state(ret) *)
+  end.
+
+Definition turn (W : world) (s : sm) : decision :=
+  let s := hook W s in                                (* self.now = time.time() *)
+  match next_task s, cleanup_reason s with
+  | Some t, None => after_cleanup W (do_cleanup W s (RTask t))   (* interrupt only when not cleaning up *)
+  | _, _ =>
+      match statefunc s with
+      | None => DRet s IBreak                         (* unreachable: guarded by the caller *)
+      | Some f =>
+          let n := ctr s in
+          let s1 := hook W (emit s (EvCall f (init s))) in
+          match w_s W n with
+          | BRetry => DRet (set_init s1 false) IReturn
+          | BFinish => DRet (set_init s1 false) IBreak
+          | BNext g => DGo (new_state W (set_init s1 false) (Some g))
+          | BNonCallable => after_cleanup W (do_cleanup W (set_init s1 false) RExc)
+          | BRaise => after_cleanup W (do_cleanup W s1 RExc)      (* init is not reset *)
+          end
+      end
+  end.
+
+(* the inner loop, for _ in range(self.maxloops) *)
 Fixpoint inner (W : world) (k : nat) (s : sm) : sm * iret :=
   match k with
   | 0 => (s, IExhausted)
-  | S k' =>
-      let s := hook W s in                            (* self.now = time.time() *)
-      let cont (p : sm * option sid) :=
-        match snd p with
-        | None => (fst p, IBreak)
-        | Some f => inner W k' (new_state W (fst p) (Some f))
-        end in
-      match next_task s, cleanup_reason s with
-      | Some t, None => cont (do_cleanup W s (RTask t))
-      | _, _ =>
-          match statefunc s with
-          | None => (s, IBreak)                       (* unreachable: guarded by the caller *)
-          | Some f =>
-              let n := ctr s in
-              let s1 := hook W (emit s (EvCall f (init s))) in
-              match w_s W n with
-              | BRetry => (set_init s1 false, IReturn)
-              | BFinish => (set_init s1 false, IBreak)
-              | BNext g => inner W k' (new_state W (set_init s1 false) (Some g))
-              | BNonCallable => cont (do_cleanup W (set_init s1 false) RExc)
-              | BRaise => cont (do_cleanup W s1 RExc)
-              end
-          end
-      end
+  | S k' => match turn W s with
+            | DRet s' r => (s', r)
+            | DGo s' => inner W k' s'
+            end
   end.
 
 (* if self.next_task: take it under the lock; cleanup_reason = None; Start -> _new_state, _update_attributes *)
@@ -155,7 +164,7 @@ Definition pickup (W : world) (s : sm) : sm :=
   | None => s
   | Some t =>
       let s1 := set_reason (set_next_task s None) None in
-      let s2 := emit s1 (EvPickup (task_id t)) in
+      let s2 := emit s1 (EvPickup (task_id t) (match t with TStart _ _ (Some _) _ => true | _ => false end)) in
       match t with
       | TStop _ => s2
       | TStart i f cl kw =>
@@ -165,26 +174,29 @@ Definition pickup (W : world) (s : sm) : sm :=
       end
   end.
 
-(* the outer "for _ in range(2)" loop *)
+(* one round of the outer loop, for _ in range(2): None = return from cycle, Some s = next round *)
+Definition round (W : world) (maxloops : nat) (s : sm) : sm * bool :=
+  match statefunc s with
+  | Some _ =>
+      let '(s1, r) := inner W maxloops s in
+      match r with
+      | IReturn => (s1, false)
+      | IBreak => (pickup W (new_state W s1 None), true)
+      | IExhausted =>
+          let '(s2, ret) := do_cleanup W s1 RExc in
+          match ret with
+          | Some f => (new_state W s2 (Some f), true)               (* continue *)
+          | None => (pickup W (new_state W s2 None), true)
+          end
+      end
+  | None => (pickup W s, true)
+  end.
+
 Fixpoint outer (W : world) (maxloops : nat) (k : nat) (s : sm) : sm :=
   match k with
   | 0 => s
-  | S k' =>
-      match statefunc s with
-      | Some _ =>
-          let '(s1, r) := inner W maxloops s in
-          match r with
-          | IReturn => s1
-          | IBreak => outer W maxloops k' (pickup W (new_state W s1 None))
-          | IExhausted =>
-              let '(s2, ret) := do_cleanup W s1 RExc in
-              match ret with
-              | Some f => outer W maxloops k' (new_state W s2 (Some f))
-              | None => outer W maxloops k' (pickup W (new_state W s2 None))
-              end
-          end
-      | None => outer W maxloops k' (pickup W s)
-      end
+  | S k' => let '(s', go) := round W maxloops s in
+            if go then outer W maxloops k' s' else s'
   end.
 
 Definition cycle (W : world) (maxloops rounds : nat) (s : sm) : sm := outer W maxloops rounds s.
